@@ -11,6 +11,14 @@ For every real record R (IH5MFRecord) built by a fixed family of data histories 
 
 Oracles use hashlib/json, dumps through the public group protocol, and a tiny existence model; never the
 functions under test for the expected value (IH5Skeleton.for_record is additionally compared, as asked).
+
+Findings on the pinned tree (be6a047):
+ * c10:d:exts:real+stub-patch / real+2-stub-patches -- create_stub drops the manifest extensions, so the first patch made
+   on a stub resets `manifest_exts` of the real record to {} although nobody overrode them (genuine C10 defect).
+ * c10:b:status-differs:*, c10:b:stub-view-struct, c10:c:skeleton-struct:real+stub-patch, c10:chain:status-differs --
+   all rooted in the C01 defect of IH5InnerNode._children (replaced groups/datasets shine through once a later patch
+   touches them): the flat stub and the multi-container real record then behave differently under the same update.
+   They vanish with the C01 fix (checked by monkeypatching the fix, and after repo commit f9ed1de).
 """
 from __future__ import annotations
 
@@ -27,6 +35,7 @@ from rac import stublib as SL
 from rac.stublib import guarded
 
 from metador_core.ih5.manifest import IH5MFRecord  # noqa: E402
+from metador_core.ih5.record import IH5Record  # noqa: E402
 from metador_core.ih5.skeleton import IH5Skeleton  # noqa: E402
 
 FN_STUB = ["ih5/manifest.py:IH5MFRecord.create_stub", "ih5/skeleton.py:init_stub_skeleton"]
@@ -82,14 +91,23 @@ def build_real(rec: Recorder, d: Path, hname: str, history, checks=True) -> Ctx:
     R = rec if checks else null
     rd = d / "real"
     rd.mkdir(parents=True, exist_ok=True)
-    robj = IH5MFRecord(rd / NAME, "x")
-    exts = {}
     ops = list(history)
+    plain = bool(ops) and ops[0][0] == "plain-base"
+    if plain:
+        ops = ops[1:]
+    robj = (IH5Record if plain else IH5MFRecord)(rd / NAME, "x")
+    exts = {}
     if not ops or ops[-1][0] != "commit":
         ops.append(["commit"])
     ncommit = 0
     for i, op in enumerate(ops):
-        if op[0] == "commit":
+        if op[0] == "commit" and plain and ncommit == 0:
+            # base written without manifest support; reopening as IH5MFRecord in r+ starts the first patch
+            robj.commit_patch()
+            robj.close()
+            robj = IH5MFRecord(rd / NAME, "r+")
+            ncommit += 1
+        elif op[0] == "commit":
             passed = op[1] if len(op) > 1 else None
             st, val = guarded(lambda: robj.commit_patch(**({"manifest_exts": passed} if passed is not None else {})))
             if st != "ok":
@@ -180,7 +198,7 @@ def _new_files(dirpath: Path, before):
 def run_update(rec: Recorder, ctx: Ctx, update, full=False, by_name=False, exts_override=None):
     """One (R, U) case. Returns (changed?, ok?)."""
     case = {"check": "update", "hname": ctx.hname, "history": ctx.history, "update": update, "exts_override": exts_override}
-    shape = SL.shape_of(update)
+    shape = SL.shape_of(update) if len(update) <= 2 else "long"
     n0 = len(rec.violations)
     before_s = {p.name for p in ctx.sd.iterdir()}
     before_r = {p.name for p in ctx.rd.iterdir()}
@@ -196,7 +214,7 @@ def run_update(rec: Recorder, ctx: Ctx, update, full=False, by_name=False, exts_
             return changed, False
         st_stub = _apply_update(s, update)
         st, val = guarded(lambda: s.commit_patch(**kw))
-        if not rec.check(st == "ok", f"c10:b:stub-commit-failed:{shape}", f"commit of the patch on the stub failed: {val}", case, FN_COMMIT):
+        if not rec.check(st == "ok", "c10:b:stub-commit-failed", f"commit of the patch on the stub failed: {val}", case, FN_COMMIT):
             return changed, False
         sdump = _gdump(s) if full else ("skipped", None)
         if sdump[0] == "ok":
@@ -210,7 +228,7 @@ def run_update(rec: Recorder, ctx: Ctx, update, full=False, by_name=False, exts_
         s = None
         # --- stub-made patch as next patch of the real record ----------------------------------------------
         st, c = guarded(lambda: IH5MFRecord(ctx.files + [pf], "r"))
-        if not rec.check(st == "ok", f"c10:b:rejected:{shape}", f"real files + stub-made patch are not accepted: {c}", case, FN_OPEN + FN_STUB):
+        if not rec.check(st == "ok", "c10:b:rejected", f"real files + stub-made patch are not accepted: {c}", case, FN_OPEN + FN_STUB):
             c = None
             return changed, False
         cdump = _gdump(c)
@@ -227,9 +245,9 @@ def run_update(rec: Recorder, ctx: Ctx, update, full=False, by_name=False, exts_
             shutil.copy(pf, up / pf.name)
             shutil.copy(SL.manifest_path_for(pf), up / SL.manifest_path_for(pf).name)
             st, c = guarded(lambda: IH5MFRecord(up / NAME, "r"))
-            if rec.check(st == "ok", f"c10:b:rejected-by-name:{shape}", f"real files + stub-made patch in one directory do not open: {c}", case, FN_OPEN):
+            if rec.check(st == "ok", "c10:b:rejected-by-name", f"real files + stub-made patch in one directory do not open: {c}", case, FN_OPEN):
                 ndump = _gdump(c)
-                rec.check(ndump == cdump, f"c10:b:by-name-differs:{shape}", "opening by record name gives another view than opening the file list", case, FN_OPEN)
+                rec.check(ndump == cdump, "c10:b:by-name-differs", "opening by record name gives another view than opening the file list", case, FN_OPEN)
                 c.close()
             c = None
             shutil.rmtree(up, ignore_errors=True)
